@@ -67,6 +67,7 @@ type Contract struct {
 	Opaque   bool // module function deliberately treated as extern (body outside the subset)
 	Split    []*SExpr // interface-valued expressions: every post is proved once per dynamic type
 	SplitTxt []string
+	NoFrame  bool     // "modifies anything": top-level actor closures, no frame obligations (such a function cannot be called from a function under contract)
 	SplitRet bool     // prove every postcondition separately per return statement
 	Safety   []string // properties under which safe.*/nofatal/nopanic obligations are generated (default: all)
 	GhostDo  []*GhostAssign
@@ -347,6 +348,10 @@ func (cs *Contracts) parseFile(p *Program, pkgPath, file, src string) error {
 			}
 			cur.HasMod = true
 			if strings.TrimSpace(rc.text) == "nothing" {
+				continue
+			}
+			if strings.TrimSpace(rc.text) == "anything" {
+				cur.NoFrame = true
 				continue
 			}
 			for _, part := range splitTopLevel(rc.text, ',') {
